@@ -42,6 +42,7 @@ GOOD = {
     "inet-address": ["host:80", "80", "[::1]:80", "Host.Example", "1.2.3.4:1", "[FE80::1:2]:8080", "FE80::A"],
     "null": ["anything", "x y"],
     "zcv.dt.evenint": ["2", "40", "-6"],
+    "zcv.dt.Methods.evenint": ["2", "40", "-6"],
     "zcv.dt.reentrant": ["v", "two words", "x=1", "<q>", "alpha", "12"],
     "zcv.dt.nested": ["2", "40", "-6"],
     "zcv.dtalt.evenint": ["3", "41", "-7"],
@@ -57,6 +58,7 @@ BAD = {
     "basic-key": ["1a", "_a", "a b"],
     "inet-address": ["host:99999", "host:x", "a b"],
     "zcv.dt.evenint": ["3", "x"],
+    "zcv.dt.Methods.evenint": ["3", "x"],
     "zcv.dt.nested": ["3", "x"],
     "zcv.dtalt.evenint": ["4", "x"],
 }
@@ -365,9 +367,20 @@ def _normkey(kt, n):
     return n if kt == "identifier" else n.lower()
 
 
+ATTR_WORDS = ["type", "name", "value", "values", "keys", "items", "data", "attributes", "matcher", "definition",
+              "section", "sections", "handlers", "schema", "id", "default", "children", "parent", "url", "lineno"]
+
+
 def _fresh_attr(rng, attrs, stem):
     # attribute names are Python identifiers: also a leading / trailing underscore and capitals
     r = rng.random()
+    if r > 0.9:
+        # everyday words an object might want for itself (none is a method of a section value)
+        free = [w for w in ATTR_WORDS if w not in attrs]
+        if free:
+            a = rng.choice(free)
+            attrs.add(a)
+            return a
     if r < 0.12:
         stem = "_" + stem
     elif r < 0.18:
